@@ -427,9 +427,15 @@ func opRouteHasLink(rc *RealCase, op Op) bool {
 	default:
 		names = op.A[:1]
 	}
+	// the final component counts only for the calls that FOLLOW it (Props.C06.Route: `ancestors` for
+	// Remove, RemoveAll, Rename, Mkdir, Symlink, Lchown, Lstat, Readlink — they act on the link itself —,
+	// `final` for the calls that write or look through it)
+	followsFinal := map[string]bool{"creat": true, "creatread": true, "write": true, "chmod": true, "chown": true, "chtimes": true,
+		"stat": true, "read": true, "open": true, "mkdirall": true}[op.K]
 	for _, n := range names {
 		cur := rc.Root
-		for _, comp := range strings.Split(path.Clean("/"+n), "/") {
+		comps := strings.Split(strings.Trim(path.Clean("/"+n), "/"), "/")
+		for i, comp := range comps {
 			if comp == "" {
 				continue
 			}
@@ -438,7 +444,7 @@ func opRouteHasLink(rc *RealCase, op Op) bool {
 			if err != nil {
 				break
 			}
-			if fi.Mode()&os.ModeSymlink != 0 {
+			if fi.Mode()&os.ModeSymlink != 0 && (i < len(comps)-1 || followsFinal) {
 				return true
 			}
 		}
